@@ -400,6 +400,11 @@ def mkTableFromFmt (f : Fmt) (records : List Record) (limits : Option (Option In
     | Option.none => Gen.C12.footerPrefix ++ natToDec records.length ++ Gen.C12.footerSuffix
   ⟨records, header, footer, ⟨g.fields, cols, limF, limL, Option.none⟩⟩
 
+/-- `table.remove_columns(names)`: the live format object loses the columns of the named fields; widths
+already negotiated and the skipped-lines flag stay as they are -/
+def removeCols (t : Tbl) (names : List (List Char)) : Tbl :=
+  { t with fmt := { t.fmt with cols := t.fmt.cols.filter fun c => !names.contains c.field.name } }
+
 /-- a column given as an object: `ReprColumn(field, fmt_modifier, break_by, min_width, max_width)` -/
 structure ColSpec where
   fieldName : List Char
@@ -535,11 +540,25 @@ structure Rest where
   footer : Option (List Char)
   skip : Option (List (List Char))
 
+/-- `=k` stands for "the very same record object as record `k`" (identity means nothing in the model) -/
+def recordsFrom : Nat → List Record → P (List Record)
+  | 0, acc => pure acc
+  | n + 1, acc => do
+    let t ← tok
+    if t.startsWith "=" then do
+      let k ← lift (t.drop 1).toString.toNat?
+      let r ← lift acc[k]?
+      recordsFrom n (acc ++ [r])
+    else do
+      let m ← lift t.toNat?
+      let r ← many valTok m
+      recordsFrom n (acc ++ [r])
+
 def recordsP : P (List Record) := do
   let r ← tok
   if r ≠ "R" then fail else
   let nr ← natTok
-  many (do let m ← natTok; many valTok m) nr
+  recordsFrom nr []
 
 def limitsP : P (Option (Option Int × Option Int)) := do
   let l ← tok
